@@ -6,6 +6,7 @@ import (
 	"math/big"
 
 	sdkmath "cosmossdk.io/math"
+	sdk "github.com/cosmos/cosmos-sdk/types"
 
 	"verifharness/amm"
 	"verifharness/emit"
@@ -115,6 +116,93 @@ func gapCorpus(w *amm.World, cf *emit.CasesFile, st *emit.Stats) error {
 	return create(1, -40, 60, e9, three, "gap/first-position-on-the-emptied-pool")
 }
 
+// landingCorpus (every run): (1) swaps that end exactly on an initialised tick with nothing left
+// (amounts from the keeper's own ComputeMaxInAmtGivenMaxTicksCrossed, and one unit more/less), both
+// directions, exact-in and exact-out, each followed by a liquidity change bounded by that tick and a
+// swap back across it; (2) a position closed in two steps, the second one removing a remainder so
+// small that both refunds truncate to zero: its ticks must go all the same.
+// With fee 0 the input of a step is a whole number, so "exactly the amount to the tick" leaves
+// exactly nothing; with a fee the rounded-up total leaves a sub-unit remainder.
+func landingCorpus(w *amm.World, cf *emit.CasesFile, st *emit.Stats, feeRate string) error {
+	p, err := w.CreatePool("uatom", "uosmo", feeRate, "1.0001", "0")
+	if err != nil {
+		return err
+	}
+	ctx := w.H.Ctx()
+	z := big.NewInt(0)
+	e12 := new(big.Int).Exp(big.NewInt(10), big.NewInt(12), nil)
+	step := func(c sdk.Context, o amm.Op) error {
+		term, err := w.Step(c, p, o, false)
+		cf.Add(term)
+		info := o.Info()
+		info["pool"] = p.ID
+		if err != nil {
+			info["err"] = err.Error()
+			st.Count(o.Kind + ":err")
+		} else {
+			st.Count(o.Kind + ":ok")
+		}
+		st.Info(info)
+		st.Evaluations++
+		st.Nontriv("corpus/fee=" + feeRate + "/" + o.Tag)
+		return err
+	}
+	for _, o := range []amm.Op{
+		{Kind: "create", Sender: 0, Lower: -300, Upper: 300, Base: e12, Quote: e12, MinBase: z, MinQuote: z, Tag: "landing/A-wide"},
+		{Kind: "create", Sender: 1, Lower: -300, Upper: -20, Base: z, Quote: new(big.Int).Mul(big.NewInt(7), e12), MinBase: z, MinQuote: z, Tag: "landing/B-below"},
+		{Kind: "create", Sender: 1, Lower: 30, Upper: 300, Base: new(big.Int).Mul(big.NewInt(7), e12), Quote: z, MinBase: z, MinQuote: z, Tag: "landing/C-above"},
+	} {
+		if err := step(ctx, o); err != nil {
+			return fmt.Errorf("landing corpus setup: %w", err)
+		}
+	}
+	for din := 0; din < 2; din++ {
+		maxIn, out, err := w.K.ComputeMaxInAmtGivenMaxTicksCrossed(ctx, p.ID, p.Denoms[din], 1)
+		if err != nil {
+			return fmt.Errorf("landing corpus: %w", err)
+		}
+		landed := int64(-20)
+		if din == 1 {
+			landed = 30
+		}
+		for _, exactIn := range []bool{true, false} {
+			for d := int64(-1); d <= 1; d++ {
+				c, _ := ctx.CacheContext()
+				a := maxIn.Amount.BigInt()
+				if !exactIn {
+					a = out.Amount.BigInt()
+				}
+				a = new(big.Int).Add(a, big.NewInt(d))
+				tag := fmt.Sprintf("landing/din=%d/exact_in=%v/to-tick%+d", din, exactIn, d)
+				if err := step(c, amm.Op{Kind: "swap", Sender: 2, ExactIn: exactIn, DenomIn: din, Amount: a, Tag: tag}); err != nil {
+					continue
+				}
+				_ = step(c, amm.Op{Kind: "create", Sender: 2, Lower: landed - 15, Upper: landed, Base: e12, Quote: e12, MinBase: z, MinQuote: z, Tag: tag + "/create-upper-on-landed-tick"})
+				_ = step(c, amm.Op{Kind: "create", Sender: 2, Lower: landed, Upper: landed + 15, Base: e12, Quote: e12, MinBase: z, MinQuote: z, Tag: tag + "/create-lower-on-landed-tick"})
+				_ = step(c, amm.Op{Kind: "swap", Sender: 2, ExactIn: true, DenomIn: 1 - din, Amount: new(big.Int).Div(a, big.NewInt(3)), Tag: tag + "/back"})
+				_ = step(c, amm.Op{Kind: "swap", Sender: 2, ExactIn: true, DenomIn: din, Amount: new(big.Int).Div(a, big.NewInt(2)), Tag: tag + "/again"})
+			}
+		}
+	}
+	// dust close: D on its own ticks, all but a sliver withdrawn, then the sliver
+	if err := step(ctx, amm.Op{Kind: "create", Sender: 2, Lower: -77, Upper: 91, Base: big.NewInt(5_000_000), Quote: big.NewInt(5_000_000), MinBase: z, MinQuote: z, Tag: "landing/D-for-dust-close"}); err == nil {
+		poss, _ := w.K.GetPositionsByPool(ctx, p.ID)
+		for _, q := range poss {
+			if q.LowerTick == -77 && q.UpperTick == 91 {
+				d, err := sdkmath.LegacyNewDecFromStr(q.Liquidity)
+				if err != nil {
+					break
+				}
+				liq := d.BigInt()
+				sliver := big.NewInt(1000) // 1e-15 of liquidity: worth less than one unit of either token
+				_ = step(ctx, amm.Op{Kind: "decrease", Sender: 2, Pid: q.Id, Liq: new(big.Int).Sub(liq, sliver), Tag: "landing/D-all-but-a-sliver"})
+				_ = step(ctx, amm.Op{Kind: "decrease", Sender: 2, Pid: q.Id, Liq: sliver, Tag: "landing/D-dust-close"})
+			}
+		}
+	}
+	return nil
+}
+
 func Run(seed int64, n int, outDir string) error {
 	w := amm.NewWorld(seed)
 	defer w.H.Close()
@@ -125,6 +213,11 @@ func Run(seed int64, n int, outDir string) error {
 	cf := &emit.CasesFile{Import: "Amm.C04Check", Runner: "run", Type: "amm_case"}
 	if err := gapCorpus(w, cf, st); err != nil {
 		return err
+	}
+	for _, feeRate := range []string{"0.003", "0"} {
+		if err := landingCorpus(w, cf, st, feeRate); err != nil {
+			return err
+		}
 	}
 	if err := w.History(cf, st, n); err != nil {
 		return err
